@@ -77,9 +77,9 @@ CLAIMED = {
    note="Trusted: TLC, kernel hash map. Events enter at controlPlaneCore.BatchUpdate/RemoveDomainRouting (what the DNS controller callbacks invoke); 3 owners, 3 addresses (+0.0.0.0/::), 3 bits placed at indices 0/33/1023.",
    design="§3 C10"),
  "C13": dict(
-   technique="TLA+ spec UdpTaskPool.tla (one action per atomic step between the verif yield points of udp_task_pool.go) model-checked exhaustively with TLC; TLC counterexamples and simulated behaviours forced on the real UdpTaskPool through blocking yield hooks (controlled scheduler), plus seeded random gated walks with the property layer evaluated on the real execution log",
-   text="TLC explores every interleaving of producers (acquire fast path / create / LoadOrStore / enqueue / release) with the per-flow worker's pop, idle timer, emptiness check, claim, table removal and channel recycling, checking exactly-once, per-flow FIFO, one-at-a-time, no-foreign-queue and no-residue. The counterexample schedules TLC finds in the check-then-claim variant (the defect repaired by a fix: commit) and simulated behaviours of the repaired model are replayed step by step on the real pool with the yield hooks as scheduler gates; random gated walks explore schedules not taken from the model. Verdicts come only from the real execution log (lost, duplicated, foreign-queue, overlapping or out-of-order tasks).",
-   note="Covers the task-pool mechanism of C13 (first sentence of the property). Endpoint pool and flow-entry ownership are being added (UdpEndpointPool.tla / TupleTracker.tla). Steps between two yield points are assumed atomic; GOMAXPROCS(1) during replay so that sync.Pool matches the modelled private slot + shared chain; 3 producers over 2 flows, <=2 tasks each, channel capacity 1 in the model.",
+   technique="TLA+ spec UdpTaskPool.tla (one action per atomic step between the verif yield points of udp_task_pool.go) model-checked exhaustively with TLC; TLC counterexamples and simulated behaviours forced on the real UdpTaskPool through blocking yield hooks (controlled scheduler), plus seeded random / directed gated walks with the property layer evaluated on the real execution log; UdpEndpointPool.tla (endpoint table, failure cache, dialer generation, retirement, janitor, kernel-entry ownership with adoption) model-checked and replayed call by call on the real UdpEndpointPool in virtual time",
+   text="TLC explores every interleaving of producers (acquire fast path / create / LoadOrStore / enqueue / release) with the per-flow worker's pop, idle timer, emptiness check, claim, table removal and channel recycling, checking exactly-once, per-flow FIFO, one-at-a-time, no-foreign-queue and no-residue. The counterexample schedules TLC finds in the check-then-claim variant (the defect repaired by a fix: commit) and simulated behaviours of the repaired model are replayed step by step on the real pool with the yield hooks as scheduler gates; random gated walks explore schedules not taken from the model. Verdicts come only from the real execution log (lost, duplicated, foreign-queue, overlapping or out-of-order tasks, two queues sharing one channel). Endpoint half: 12-event histories of GetOrCreate (by two control-plane generations, dial ok / failing, two concurrent first packets behind a slow dial), writes, replies, write / read errors, kernel-entry registration, dialer health invalidation, clock steps across NAT timeout and failure-cache lifetime, pool reset, and an adoption parked inside the owner hand-over while the endpoint is closed; after every call the answer (same / new / failed-recently / dial error), the number of dials, the close count of every transport, what each owner holds in the kernel table and what the pool offers are compared.",
+   note="Steps between two yield points are assumed atomic; GOMAXPROCS(1) during replay so that sync.Pool matches the modelled private slot + shared chain; 3 producers over 2 flows, <=2 tasks each, channel capacity 1 in the model.",
    design="§3 C13"),
  "C02": dict(
    technique="TLA+ spec RuleScan.tla: kernel route() automaton (KScan: route_state bits, DNS_QUERY hand-over, is_wan process-name gating) checked by TLC to equal the first-match semantics modulo IntendedDiff; generated programs installed by the production builders into real kernel maps and every packet executed by the real tc programs (BPF_PROG_TEST_RUN) on LAN ingress and WAN egress",
